@@ -306,6 +306,11 @@ struct Ops {
 					t.v[static_cast<size_t>(x)] = acc;
 				}
 				eng::LibSection ls(ctx, "mtbdd:project");
+				if (r[4] % 2) {
+					// the same projection computed once before and thrown away: nothing of it may be handed out again
+					MT scratch = pool[i].m->Project([mask](size_t var) { return ((mask >> var) & 1) != 0; }, f);
+					(void)scratch;
+				}
 				put(pool[i].m->Project([mask](size_t var) { return ((mask >> var) & 1) != 0; }, f), t, pool[i].group, r[7]);
 				break;
 			}
